@@ -91,6 +91,27 @@ CHECKS = {
         technique="deterministic co-simulation of two replicas (hierarchical vs inline) of generated designs under identical stimulus and independent seeded process orders; replica agreement + structural checks",
         ref="6/C12",
     ),
+    "C02": dict(
+        level="exploration",
+        text="Thin (DESIGN 1): typed expression trees over Bit / BitVector / Unsigned / Signed operands with every operator of the statement (+ - * truncdiv % rem with vector and int operands in either position, & | ^ ~, all comparisons incl. chained, shifts by constant and by Unsigned, @, constant and run-time index, slices, .signed/.unsigned/.bitvector, resize, abs / neg, and / or / not, if-expressions, select_with, any / all) drive one output from a concurrent and one from a clocked context. The operand valuations are applied as a sequence (all valuations when <= 10 operand bits, seeded order; corners + random otherwise) under seeded process order with the read-before-write monitor on: the concurrent output must equal f(current operands) after settling, the clocked output f(operands at the edge). Oracle: an independent integer model of the documented width / extension / wrap rules.",
+        note="What the simulator adds is independence from process order and from the operand history; the search over shapes and values is plain seeded input generation. Preconditions (non-zero divisors, in-range indices) are kept by construction; rejections are counted, not flagged.",
+        technique="deterministic simulation of emitted VHDL over seeded operand sequences and process orders vs independent integer model (input generation for shapes/values)",
+        ref="6/C02",
+    ),
+    "C05": dict(
+        level="exploration",
+        text="Thin: 5643 enumerated cases (source type x target type over Bit and BitVector/Unsigned/Signed[1,2,3,4,7,8], int / Null / Full / bool / str literals) x assignment form (<<=, .next, @=, .value, ^=, .push, slice target, array element, typed-view targets on signals and variables, if-expression merge, function-return merge, initialisation, port connection). Cases the statement says must be rejected have to be rejected by the compiler; accepted cases are simulated over ALL source values under seeded process order and the target must hold the represented value (zero / sign extension, bit copy); an accepted case whose VHDL fails a type/width rule of the elaborator is flagged.",
+        note="The accept/reject half is decided at compile time (plain enumeration). Forms and pairs the statement does not list are 'either rejected or value preserving'. Known finding: equal-width BitVector<->Unsigned/Signed port connections are emitted without type conversion.",
+        technique="enumerated conversion cases compiled by the real compiler; accepted ones simulated exhaustively over source values (seeded order / process order) vs the statement's conversion matrix",
+        ref="6/C05",
+    ),
+    "C09": dict(
+        level="exploration",
+        text="Thin: two replicas per case -- K, the operation on Python-level CoHDL constants (what the compiler folds), and P, the same operation on input ports of a design compiled by the real compiler and simulated in VSIM with the ports held at those values. Type, width and bit pattern must agree (width through an additional BitVector output of the folded width). Operations: + - * truncdiv % rem (vector x vector, vector x int, int x vector), & | ^ ~, comparisons, shifts, neg / abs, resize, typed views, @, index, slice; widths 1..64 so that float shortcuts in the Python-side arithmetic are exercised; 6 valuations per case (corners + random).",
+        note="Agreement of replicas is the property; no third model. A fold-time exception or a rejected run-time design is not explored.",
+        technique="replica agreement: Python-level constant folding vs deterministic simulation of the emitted logic with ports held at the same values (input generation for cases)",
+        ref="6/C09",
+    ),
 }
 
 NOT_APPLICABLE = {
